@@ -52,6 +52,11 @@ def fit_faults(spec):
         out.append(("R2", {"call": "add_error", "axis": ax, "err": -0.2, "via": "container"}))
         out.append(("R3", {"call": "add_error", "axis": ax, "err": 0.1, "corr": 1.5, "via": "fit"}))
         out.append(("R3", {"call": "add_error", "axis": ax, "err": 0.1, "corr": -0.1, "via": "fit"}))
+        # "any negative entry, any out-of-range coefficient": also by an amount below the usual comparison tolerances
+        out.append(("R2", {"call": "add_error", "axis": ax, "err": [0.1] * (n - 1) + [-1e-12], "via": "fit"}))
+        out.append(("R2", {"call": "add_error", "axis": ax, "err": -1e-12, "via": "container"}))
+        out.append(("R3", {"call": "add_error", "axis": ax, "err": 0.1, "corr": 1.0 + 1e-9, "via": "fit"}))
+        out.append(("R3", {"call": "add_error", "axis": ax, "err": 0.1, "corr": -1e-12, "via": "fit"}))
         M = np.eye(n)
         M[0, 0] = 0.9
         out.append(("R4", {"call": "add_matrix_error", "axis": ax, "mat": M.tolist(), "mtype": "cor", "err": [0.1] * n}))
@@ -59,6 +64,8 @@ def fit_faults(spec):
         out.append(("R6", {"call": "enable_error", "name": "no_such_source"}))
     if len(names) >= 2:
         out.append(("R5", {"call": "mconstraint", "pars": names[:2], "values": [1.0, 1.0], "mat": [[1.0, 0.2], [0.3, 1.0]], "mtype": "cov"}))
+        out.append(("R5", {"call": "mconstraint", "pars": names[:2], "values": [1.0, 1.0], "mat": [[1e-10, 5e-11], [-5e-11, 1e-10]], "mtype": "cov"}))  # tiny scale
+        out.append(("R5", {"call": "mconstraint", "pars": names[:2], "values": [1.0, 1.0], "mat": [[1.0, 0.2], [0.2000001, 1.0]], "mtype": "cov"}))  # small asymmetry
         out.append(("R5", {"call": "mconstraint", "pars": names[:2], "values": [1.0, 1.0], "mat": [[1.0, 0.2, 0.0], [0.2, 1.0, 0.0], [0.0, 0.0, 1.0]], "mtype": "cov"}))
         out.append(("R5", {"call": "mconstraint", "pars": names[:2], "values": [1.0], "mat": [[1.0, 0.2], [0.2, 1.0]], "mtype": "cov"}))
         out.append(("R4", {"call": "mconstraint", "pars": names[:2], "values": [1.0, 1.0], "mat": [[0.9, 0.2], [0.2, 1.0]], "mtype": "cor", "unc": [0.1, 0.1]}))
@@ -294,6 +301,9 @@ class RejectMachine(Machine):
             out.append(("R2", {"call": "add_error", "axis": ax, "err": [0.1] * (n - 1) + [-0.5]}))
             out.append(("R3", {"call": "add_error", "axis": ax, "err": 0.1, "corr": 1.01}))
             out.append(("R3", {"call": "add_error", "axis": ax, "err": 0.1, "corr": -0.5}))
+            out.append(("R2", {"call": "add_error", "axis": ax, "err": [0.1] * (n - 1) + [-1e-12]}))
+            out.append(("R3", {"call": "add_error", "axis": ax, "err": 0.1, "corr": 1.0 + 1e-9}))
+            out.append(("R3", {"call": "add_error", "axis": ax, "err": 0.1, "corr": -1e-12}))
             M = np.eye(n)
             M[-1, -1] = 1.2
             out.append(("R4", {"call": "add_matrix_error", "axis": ax, "mat": M.tolist(), "mtype": "cor", "err": [0.1] * n}))
